@@ -82,6 +82,8 @@ def plan(tier, seed):
             'reps': 3 if q else 10, 'weight': 5} for i in range(nsh)]
   specs += [{'shard': 'window-%d' % i, 'n': 3 if q else 12, 'weight': 3}
             for i in range(3)]
+  specs += [{'shard': 'hashlen-%d' % i, 'n': 10 if q else 50, 'weight': 4}
+            for i in range(4)]
   specs += [{'shard': 'u2f-%d' % i, 'n': 12 if q else 60} for i in range(2)]
   specs += [{'shard': 'gmp-%d' % i, 'part': i, 'parts': 4,
              'reps': 3 if q else 12, 'weight': 2} for i in range(4)]
@@ -111,10 +113,10 @@ def _judge(ctx, arts, meta, name, d, n, reg):
   return hit
 
 
-def _batch(rng, curve, d, pub, nonces, with_others=True):
+def _batch(rng, curve, d, pub, nonces, with_others=True, hlen=None):
   """Signatures of A (biased) shuffled among other issuers' healthy ones,
   with a duplicate inserted."""
-  arts = sigs.sign_many(rng, curve, d, pub, nonces)
+  arts = sigs.sign_many(rng, curve, d, pub, nonces, hlen)
   meta = ['A'] * len(arts)
   if arts and rng.chance(1, 3):
     dup = type(arts[0])()
@@ -206,6 +208,44 @@ def run_window(ctx, spec):
       ctx.count(('hit:' if hit else 'miss:') + reg)
 
 
+def run_hashlen(ctx, spec):
+  """Digests shorter than, equal to and longer than the order (also longer
+  than its byte encoding), comfortably inside the margin."""
+  from paranoid_crypto.lib import ecdsa_sig_checks as sc
+  rng = ctx.rng('hashlen')
+  checks = {k: getattr(sc, v[0])() for k, v in KINDS.items()}
+  for i in range(spec['n']):
+    t = int(spec['shard'][-1]) * spec['n'] + i
+    curve = gen.STRONG[t % len(gen.STRONG)]
+    n = gen.model_curve(curve).n
+    bits = n.bit_length()
+    ob = (bits + 7) // 8
+    hlen = [ob + 1, ob + 8, 2 * ob, ob + 2, rng.choice([ob, ob - 1, 20])][
+        (t // len(gen.STRONG)) % 5]
+    kind = rng.choice(['msb', 'prefix', 'postfix'])
+    if not ctx.want('%d/%s/%d' % (i, curve, hlen)):
+      continue
+    w = 64
+    count = math.ceil(2.4 * 2 * bits / w)
+    d, pub = sigs.issuer(rng, curve)
+    arts, meta = _batch(rng, curve, d, pub, KINDS[kind][1](rng, n, w, count),
+                        hlen=hlen)
+    name = KINDS[kind][0]
+    checks[kind].Check(arts)
+    cls = 'longer' if hlen > ob else 'equal' if hlen == ob else 'shorter'
+    reg = 'hash-%s-than-order/%s' % (cls, curve.replace('CURVE_', '')
+                                     if cls == 'longer' else 'any')
+    hit = _judge(ctx, arts, meta, name, d, n, reg)
+    ctx.count('evaluations')
+    ctx.distinct(reg, d)
+    ctx.count('tried:' + reg)
+    ctx.count(('hit:' if hit else 'miss:') + reg)
+  try:
+    ctx.sample({'regime': reg, 'curve': curve, 'hash_bytes': hlen})
+  except NameError:
+    pass
+
+
 def run_u2f(ctx, spec):
   from paranoid_crypto.lib import ecdsa_sig_checks as sc
   rng = ctx.rng('u2f')
@@ -270,6 +310,7 @@ def run_gmp(ctx, spec):
 def run(ctx, spec):
   s = spec['shard']
   for prefix, fn in (('bias', run_bias), ('window', run_window),
+                     ('hashlen', run_hashlen),
                      ('u2f', run_u2f), ('gmp', run_gmp)):
     if s.startswith(prefix):
       return fn(ctx, spec)
@@ -287,7 +328,8 @@ def finalize(agg, tier):
     reg = k[6:]
     n, miss = c[k], c.get('miss:' + reg, 0)
     status = regs.get(reg, {}).get('status', 'unmapped')
-    if reg.startswith(('u2f/', 'window-straddle/')) or reg == 'gmp-lcg':
+    if reg.startswith(('u2f/', 'window-straddle/', 'hash-')) or \
+        reg == 'gmp-lcg':
       status = regs.get(reg, {}).get('status', 'enforced')
     if reg.startswith('gmp-lcg/'):
       status = 'info'
@@ -296,6 +338,11 @@ def finalize(agg, tier):
       enforced_trials += n
       v = rates.check_max_rate('C08', 'lattice-regime-broken/' + reg, miss, n,
                                p_max=0.05, alpha=1e-7)
+      if not v and n >= 4 and miss == n:
+        # every batch of the regime missed: not what sporadic (~1%) misses do
+        v = {'mech': 'lattice-regime-broken/' + reg,
+             'msg': 'all %d batches of enforced regime %s missed' % (n, reg),
+             'data': table[reg]}
       if v:
         viol.append(v)
       elif miss:
